@@ -20,6 +20,11 @@ func Parse(s string) (*ast.Program, error) {
 	p := newParser(lexer.New(s))
 	prog := p.parseProgram()
 
+	if p.gaveUpAt > 0 {
+		// what the abandoned levels report while they unwind says nothing
+		p.errors = p.errors[:p.gaveUpAt]
+	}
+
 	if len(p.errors) > 0 {
 		return prog, p.errors
 	}
@@ -90,6 +95,8 @@ type parser struct {
 	prefixParseFns map[token.Type]prefixParseFn
 	infixParseFns  map[token.Type]infixParseFn
 	inForBlock     bool
+	depth          int
+	gaveUpAt       int // number of errors when the input was given up as nested too deeply
 }
 
 func (p *parser) parseProgram() *ast.Program {
@@ -228,7 +235,30 @@ func (p *parser) parseExpressionStatement() *ast.ExpressionStatement {
 	return stmt
 }
 
+// maxDepth bounds how deep the tree of one statement may get: the parser,
+// the evaluator and the printer all recurse along it, and the Go runtime
+// ends the whole process when a stack grows without bound.
+const maxDepth = 10000
+
+// tooDeep records the error and gives up on the rest of the input.
+func (p *parser) tooDeep() ast.Expression {
+	if p.gaveUpAt == 0 {
+		p.errors = append(p.errors, fmt.Sprintf("line %d: syntax error: nested more than %d levels deep", p.curToken.LineNumber, maxDepth))
+		p.gaveUpAt = len(p.errors)
+	}
+	for !p.curTokenIs(token.EOF) {
+		p.nextToken()
+	}
+	return nil
+}
+
 func (p *parser) parseExpression(precedence int) ast.Expression {
+	depth := p.depth
+	defer func() { p.depth = depth }()
+	if p.depth++; p.depth > maxDepth {
+		return p.tooDeep()
+	}
+
 	prefix := p.prefixParseFns[p.curToken.Type]
 	if p.curTokenIs(token.LET) {
 		return nil
@@ -251,6 +281,11 @@ func (p *parser) parseExpression(precedence int) ast.Expression {
 		infix := p.infixParseFns[p.peekToken.Type]
 		if infix == nil {
 			return leftExp
+		}
+
+		// a + b + c ..., f()()..., x[0][0]... grow the tree downwards too
+		if p.depth++; p.depth > maxDepth {
+			return p.tooDeep()
 		}
 
 		p.nextToken()
@@ -283,6 +318,9 @@ func (p *parser) parseIdentifier() ast.Expression {
 	id := &ast.Identifier{TokenAble: ast.TokenAble{Token: p.curToken}}
 	orignalCalleAddress := id
 	ss := strings.Split(p.curToken.Literal, ".")
+	if len(ss) > maxDepth {
+		return p.tooDeep()
+	}
 	id.Value = ss[0]
 
 	for i := 1; i < len(ss); i++ {
